@@ -14,6 +14,7 @@ import (
 	"sort"
 	"strconv"
 	"strings"
+	"testing/synctest"
 	"time"
 
 	"github.com/anishathalye/porcupine"
@@ -23,6 +24,7 @@ import (
 )
 
 type c10Fut struct {
+	LateCtx   bool // created through (apply future-call (blind-nap-list ms thunk)): the creator's context may end during the nap
 	Inner     bool // created by f0's body instead of by the creator thread (its context derives from f0's)
 	Idx       int
 	Body      string
@@ -56,8 +58,8 @@ func (c10) ID() string { return "C10" }
 
 func init() { register(c10{}) }
 
-var c10Bodies = []string{"val", "gate-ctx", "gate-ign", "throw", "sleep", "spin", "fail", "deref-other", "nil", "false", "coll", "gate-then-throw", "call-fn", "nested-future", "error-value", "error-value-gate"}
-var c10BodyW = []int{3, 4, 3, 2, 3, 2, 1, 1, 1, 1, 1, 2, 1, 1, 2, 1}
+var c10Bodies = []string{"val", "gate-ctx", "gate-ign", "throw", "sleep", "spin", "fail", "deref-other", "nil", "false", "coll", "gate-then-throw", "call-fn", "nested-future", "error-value", "error-value-gate", "try-gate-ctx", "try-sleep"}
+var c10BodyW = []int{3, 4, 3, 2, 3, 2, 1, 1, 1, 1, 1, 2, 1, 1, 2, 1, 3, 1}
 var c10OpKinds = []string{"deref", "done?", "cancelled?", "cancel", "deref-deadline", "nap"}
 var c10OpW = []int{5, 4, 3, 2, 3, 1}
 
@@ -234,6 +236,19 @@ func (h *c10Harness) GateCtxRec(ctx context.Context, a []types.MalType) (types.M
 	return r, err
 }
 
+// BlindNapList: (blind-nap-list ms x) lets ms of simulated time pass without looking at the context
+// (a slow embedder builtin), then returns (list x).
+//
+//go:norace
+func (h *c10Harness) BlindNapList(ctx context.Context, a []types.MalType) (types.MalType, error) {
+	ms, _ := a[0].(int)
+	raceOff()
+	time.Sleep(time.Duration(ms) * time.Millisecond)
+	synctest.Wait()
+	raceOn()
+	return types.List{Val: []types.MalType{a[1]}}, nil
+}
+
 func (c10) Run(tp *Tape, opt RunOpt) *RunOut {
 	out := &RunOut{prop: "C10", Stats: map[string]int64{}}
 	// ---- generate ----
@@ -266,6 +281,7 @@ func (c10) Run(tp *Tape, opt RunOpt) *RunOut {
 	h := &c10Harness{&Harness{S: s}}
 	h.Install(e)
 	e.Set(types.Symbol{Val: "gate-ctx!"}, types.Func{Fn: h.GateCtxRec})
+	e.Set(types.Symbol{Val: "blind-nap-list"}, types.Func{Fn: h.BlindNapList})
 	if _, err := lisp.EVAL(context.Background(), mustRead("(def spin (fn [n] (if (> n 0) (spin (- n 1)) nil)))"), e); err != nil {
 		panic(err)
 	}
@@ -318,6 +334,13 @@ func (c10) Run(tp *Tape, opt RunOpt) *RunOut {
 		case "error-value-gate":
 			f.Src, f.Normal, f.NormalOK = "(future "+tr+" (gate! \"g"+k+"\") (try (throw (go-error \"ge"+k+"\")) (catch e e)))", "#goerr<ge"+k+">", true
 			gates = append(gates, "g"+k)
+		case "try-gate-ctx":
+			// the body waits inside a try form: cancelling the future must reach it there too
+			f.Src, f.Normal, f.NormalOK = "(future "+tr+" (try (gate-ctx! \"g"+k+"\") (catch e (throw e))) "+k+")", k, true
+			gates = append(gates, "g"+k)
+		case "try-sleep":
+			f.SleepMs = 1 + tp.Draw(LaneWork, 50)
+			f.Src, f.Normal, f.NormalOK = "(future "+tr+" (try (sleep "+strconv.Itoa(f.SleepMs)+") (finally nil)) "+k+")", k, true
 		case "nested-future":
 			f.Src, f.Normal, f.NormalOK = "(future "+tr+" @(future (do (spin 2) "+k+")))", k, true
 		}
@@ -329,24 +352,33 @@ func (c10) Run(tp *Tape, opt RunOpt) *RunOut {
 		f0 := w.futs[0]
 		f0.Src = strings.Replace(f0.Src, "(trace! :body-"+strconv.Itoa(f0.Tok)+")", "(trace! :body-"+strconv.Itoa(f0.Tok)+") (eval (quote (def f1 "+w.futs[1].Src+"))) (open-gate! \"f1-defined\")", 1)
 	}
-	for _, f := range w.futs {
-		if f.Inner {
-			rendering = append(rendering, "(f1 is defined by the body of f0)")
-			continue
-		}
-		rendering = append(rendering, "creator: (def "+futName(f.Idx)+" "+f.Src+")")
-	}
 	rootCtx, rootCancel := context.WithCancel(context.Background())
 	s.AddCancel(rootCancel)
 	w.creator = rootCtx
 	creatorDeadline := time.Duration(0)
-	if tp.Chance(LaneFault, 1, 8) {
+	if tp.Chance(LaneFault, 1, 4) {
 		// fault: the creator's context ends while futures are alive
 		creatorDeadline = time.Duration(10+tp.Draw(LaneFault, 40))*time.Millisecond + 977*time.Nanosecond
 		var c context.CancelFunc
 		w.creator, c = context.WithTimeout(rootCtx, creatorDeadline)
 		s.AddCancel(c)
 		out.Stats["fault:creator-deadline"]++
+	}
+	if creatorDeadline > 0 && strings.HasPrefix(w.futs[0].Src, "(future ") && tp.Chance(LaneFault, 1, 3) {
+		// the creator's context ends while it is inside a builtin that does not look at the context, right
+		// before future-call is applied: the future is created under an already ended context
+		f0 := w.futs[0]
+		f0.LateCtx = true
+		nap := int(creatorDeadline/time.Millisecond) + 1 + tp.Draw(LaneFault, 5)
+		f0.Src = "(apply future-call (blind-nap-list " + strconv.Itoa(nap) + " (fn [] (do " + strings.TrimSuffix(strings.TrimPrefix(f0.Src, "(future "), ")") + "))))"
+		out.Stats["fault:future-created-under-ended-context"]++
+	}
+	for _, f := range w.futs {
+		if f.Inner {
+			rendering = append(rendering, "(f1 is defined by the body of f0)")
+			continue
+		}
+		rendering = append(rendering, "creator: (def "+futName(f.Idx)+" "+f.Src+")")
 	}
 	ops := map[string]*c10Op{}
 	opN := 0
